@@ -156,11 +156,11 @@ func ruleC02(r *Report) {
 	m := buildSPModel(r)
 	p := m.P
 	r.NotDecided("lexical time parsing (RelaxedTime, zones, fractions, ms rounding), behaviour for absent attributes (zero instants), time package arithmetic")
-	r.Rule("C02.table", "every time comparison that can reject, in linear normal form now > X + k*Tol / now < X + k*Tol, equals the property's table: Response/ArtifactResponse/Assertion IssueInstant +1*MaxIssueDelay, SubjectConfirmationData.NotOnOrAfter +1*MaxClockSkew, Conditions.NotBefore -1*MaxClockSkew, Conditions.NotOnOrAfter +1*MaxClockSkew; tolerances are loads of the public package variables", 6)
+	r.Rule("C02.table", "every time comparison that can reject, in linear normal form now > X + k*Tol / now < X + k*Tol, equals the property's table: Response/ArtifactResponse/Assertion IssueInstant +1*MaxIssueDelay, SubjectConfirmationData.NotOnOrAfter +1*MaxClockSkew, Conditions.NotBefore -1*MaxClockSkew, Conditions.NotOnOrAfter +1*MaxClockSkew; tolerances are loads of the public package variables", 3)
 	r.Rule("C02.forall", "the per-confirmation rows range over the whole Subject.SubjectConfirmations slice", 1)
-	r.Rule("C02.returned", "every assertion returned was accepted by the assertion validator applied to that same object; the response parser returns only assertions produced by the assertion parser under err == nil", 3)
-	r.Rule("C02.clock", "the validation time of every row traces back, through all non-test call sites, to a call through the saml.TimeNow variable", 3)
-	r.Rule("C02.accept", "a response strictly inside all windows (every time atom false) is not rejected by a time-dependent condition", 2)
+	r.Rule("C02.returned", "every assertion returned was accepted by the assertion validator applied to that same object; the response parser returns only assertions produced by the assertion parser under err == nil", 1)
+	r.Rule("C02.clock", "the validation time of every row traces back, through all non-test call sites, to a call through the saml.TimeNow variable", 1)
+	r.Rule("C02.accept", "a response strictly inside all windows (every time atom false) is not rejected by a time-dependent condition", 1)
 
 	now := argPred(isNow)
 	t := m.Resp
@@ -540,10 +540,10 @@ func ruleC03(r *Report) {
 	B := m.A.B
 	p := m.P
 	r.NotDecided("URL normalisation semantics of url.URL.String(); that the configured IdP entity ID is the right one; behaviour of an application-installed audience validator")
-	r.Rule("C03.table", "reject rows for Destination (mandatory when the Response carries a signature, equal to the received-at URL or the ACS URL), Response/Assertion Issuer, Status, per-confirmation Recipient and audience (entity ID, or metadata URL when unset; hook delegates)", 9)
-	r.Rule("C03.accept", "an otherwise valid response satisfying each allowed alternative (no destination on an unsigned response, destination = received-at URL, destination = ACS URL, absent Response Issuer, no audience restriction, matching audience) is not rejected", 7)
-	r.Rule("C03.uses", "the accept/reject decision depends on the addressing fields only through the table's exact (in)equalities (no prefix, case-folding, trimming, length or other derived comparison)", 3)
-	r.Rule("C03.badstatus", "a non-Success status is reported as ErrBadStatus carrying the status value", 2)
+	r.Rule("C03.table", "reject rows for Destination (mandatory when the Response carries a signature, equal to the received-at URL or the ACS URL), Response/Assertion Issuer, Status, per-confirmation Recipient and audience (entity ID, or metadata URL when unset; hook delegates)", 5)
+	r.Rule("C03.accept", "an otherwise valid response satisfying each allowed alternative (no destination on an unsigned response, destination = received-at URL, destination = ACS URL, absent Response Issuer, no audience restriction, matching audience) is not rejected", 3)
+	r.Rule("C03.uses", "the accept/reject decision depends on the addressing fields only through the table's exact (in)equalities (no prefix, case-folding, trimming, length or other derived comparison)", 1)
+	r.Rule("C03.badstatus", "a non-Success status is reported as ErrBadStatus carrying the status value", 1)
 
 	t := m.Resp
 	x := bindResp(t)
@@ -717,11 +717,11 @@ func ruleC04(r *Report) {
 	B := m.A.B
 	p := m.P
 	r.NotDecided("authenticity of tracking cookies (C16/C17 rules); behaviour of an application-installed request-ID validator")
-	r.Rule("C04.table", "reject rows: Response.InResponseTo matches no outstanding ID (default validator, IdP-initiated disabled); per-confirmation InResponseTo matches none (IdP-initiated disabled); ArtifactResponse.InResponseTo differs from the issued ArtifactResolve ID", 3)
-	r.Rule("C04.accept", "a valid response to an outstanding request is accepted; IdP-initiated configuration and the application hook bypass exactly as documented; an empty outstanding set accepts nothing", 4)
-	r.Rule("C04.uses", "InResponseTo and the outstanding-ID list influence the decision only through exact equality with an element of the list (no prefix/containment/length test)", 3)
+	r.Rule("C04.table", "reject rows: Response.InResponseTo matches no outstanding ID (default validator, IdP-initiated disabled); per-confirmation InResponseTo matches none (IdP-initiated disabled); ArtifactResponse.InResponseTo differs from the issued ArtifactResolve ID", 2)
+	r.Rule("C04.accept", "a valid response to an outstanding request is accepted; IdP-initiated configuration and the application hook bypass exactly as documented; an empty outstanding set accepts nothing", 2)
+	r.Rule("C04.uses", "InResponseTo and the outstanding-ID list influence the decision only through exact equality with an element of the list (no prefix/containment/length test)", 1)
 	r.Rule("C04.artifact-id", "the request ID given to the artifact-response parser is the ID of the ArtifactResolve the same function just built and posted", 1)
-	r.Rule("C04.middleware", "the outstanding-ID slice the middleware passes to ParseResponse is built only from the empty ID under AllowIDPInitiated and from SAMLRequestID of tracked requests", 2)
+	r.Rule("C04.middleware", "the outstanding-ID slice the middleware passes to ParseResponse is built only from the empty ID under AllowIDPInitiated and from SAMLRequestID of tracked requests", 1)
 
 	t := m.Resp
 	x := bindResp(t)
